@@ -129,7 +129,7 @@ func c09(run *ev.Run, tier string) {
 		r := rng.New(uint64(run.Seed)).Fork(uint64(ji))
 		s := &gen.Spec{Name: "scr", Arch: "amd64", Version: "1.0.0", Maintainer: "S <s@example.com>", Description: "scripts", MTime: 1400000000}
 		s.Umask = []int64{0, 0o022, 0o027, 0o077}[ji%4] // the umask is for payload files, not for maintainer scripts
-		shared := j.v == 1 && j.mask%3 == 0 // every configured slot points at the same script file
+		shared := j.v == 1 && j.mask%3 == 0             // every configured slot points at the same script file
 		s.RPM.BuildHost = "verif-host"
 		s.Contents = []*gen.Content{{Src: payload, Dst: "/opt/scr/payload.txt"}}
 		bodies := map[string][]byte{}
